@@ -306,6 +306,9 @@ func GetFingerprint(q string) string {
 					fmt.Println("Ignore multi-line comment content")
 				}
 			}
+			// Track the previous rune inside the comment too, otherwise pr
+			// stays '*' (from the opening "/*") and the first '/' ends it.
+			pr = r
 			continue
 		} else if s == mlcOrMySQLCode {
 			// We're at the start of either a /* multi-line comment */ or some
@@ -316,6 +319,7 @@ func GetFingerprint(q string) string {
 					fmt.Println("Multi-line comment")
 				}
 				s = inMLC
+				pr = r
 				continue
 			} else {
 				// /*![version] SQL_NO_CACHE */ -> /*![version] SQL_NO_CACHE */ (no change)
